@@ -52,6 +52,14 @@
 
 #include "cJSON_Utils.h"
 
+/* define isnan and isinf for ANSI C, if in C99 or above, isnan and isinf has been defined in math.h */
+#ifndef isinf
+#define isinf(d) (isnan((d - d)) && !isnan(d))
+#endif
+#ifndef isnan
+#define isnan(d) (d != d)
+#endif
+
 /* define our own boolean type */
 #ifdef true
 #undef true
@@ -112,6 +120,11 @@ static int compare_strings(const unsigned char *string1, const unsigned char *st
 static cJSON_bool compare_double(double a, double b)
 {
     double maxVal = fabs(a) > fabs(b) ? fabs(a) : fabs(b);
+    if (isinf(a) || isinf(b) || isnan(a) || isnan(b))
+    {
+        /* the relative tolerance degenerates to inf <= inf for non-finite operands */
+        return (a == b);
+    }
     return (fabs(a - b) <= maxVal * DBL_EPSILON);
 }
 
